@@ -98,3 +98,66 @@ fn main() {{
     if got != expected:
         return True, decoded, f"real lexer on {src!r}: delivered spans {got}, tokens outside comments are {expected}"
     return False, decoded, f"real lexer on {src!r} delivers exactly the expected tokens (stub/encoding artefact)"
+
+
+def tooling_reference(classes, spans, source_len):
+    """Reference of LexicalTokens over a whole raw sequence: [(start, end, kind)]."""
+    out, depth, start = [], 0, None
+    kind_of = {0: "Punctuation", 2: "TextBlock", 3: "Comment", 5: "Operator"}
+    for c, (s, e) in zip(classes, spans):
+        if depth > 0:
+            if c == 4:
+                depth += 1
+            elif c == 5:
+                depth -= 1
+                if depth == 0:
+                    out.append([start, e, "Comment"])
+                    start = None
+        elif c == 4:
+            depth, start = 1, s
+        elif c in kind_of:
+            out.append([s, e, kind_of[c]])
+    if start is not None:
+        out.append([start, source_len, "Comment"])
+    return out
+
+
+def replay_tooling(runner, ws, prop, h, vals, rec):
+    """kani::any() order of tooling_step_check: d0, start0, len, then one class per raw token."""
+    m = re.search(r"at most (\d+) raw tokens", h.get("bounds", ""))
+    limit = int(m.group(1)) if m else 8
+    d0 = int.from_bytes(bytes(vals[0]), "little")
+    n = int.from_bytes(bytes(vals[2]), "little")
+    classes = [4] * min(d0, limit + 1) + [v[0] for v in vals[3:3 + n]]
+    src, spans = "", []
+    for c in classes:
+        lex = CLASS_TEXT[c]
+        spans.append((len(src), len(src) + len(lex)))
+        src += lex + ("" if c in (2, 3) else " ")
+    expected = tooling_reference(classes, spans, len(src))
+    decoded = {"initial_comment_depth": d0, "raw_tokens": [CLASS_NAME[c] for c in classes], "source_text": src,
+               "expected_tokens": expected}
+    rust_src = src.replace("\\", "\\\\").replace("\"", "\\\"").replace("\n", "\\n")
+    main_rs = f'''
+fn main() {{
+    let source = "{rust_src}";
+    for t in zydeco_surface::textual::LexicalTokens::new(source) {{
+        println!("{{}} {{}} {{:?}}", t.range.start, t.range.end, t.kind);
+    }}
+}}
+'''
+    rc, out, err = native_crate(runner, ws, prop, "vp_replay_tooling", {"zydeco-surface": "lang/surface"}, main_rs)
+    rec["native_program"] = main_rs
+    if rc != 0:
+        if "panicked" in err:
+            return True, decoded, f"real tooling lexer panics on {src!r}: " + err[-300:]
+        return False, decoded, "native replay did not run: " + err[-400:]
+    got = []
+    for line in out.splitlines():
+        a, b, k = line.split()
+        got.append([int(a), int(b), {"UpperIdentifier": "?", "Punctuation": "Punctuation", "TextBlock": "TextBlock",
+                                      "Comment": "Comment", "Operator": "Operator"}.get(k, k)])
+    decoded["reported_tokens"] = got
+    if got != expected:
+        return True, decoded, f"real tooling lexer on {src!r}: reported {got}, reference {expected}"
+    return False, decoded, f"real tooling lexer on {src!r} reports exactly the reference tokens (stub/encoding artefact)"
